@@ -97,13 +97,13 @@ theorem attr_chain_shape (v : Validators) (c : Ctx) (chain : List String)
           · exact ⟨[], fnEvalArgs, by simp [hs, appendIfNotEmpty, fnEvalArgs]⟩
           · exact ⟨[], sc0.sanitizerName, by simp [hs, appendIfNotEmpty]⟩
         · split at h
-          · simp only [Option.some.injEq] at h
-            subst h
-            by_cases hs : sc0.sanitizerName = ""
-            · exact ⟨[], fnNormalizeURL, by simp [hs, appendIfNotEmpty, fnNormalizeURL]⟩
-            · exact ⟨[sc0.sanitizerName], fnNormalizeURL, by simp [hs, appendIfNotEmpty, fnNormalizeURL]⟩
+          · cases h
           · split at h
-            · cases h
+            · simp only [Option.some.injEq] at h
+              subst h
+              by_cases hs : sc0.sanitizerName = ""
+              · exact ⟨[], fnNormalizeURL, by simp [hs, appendIfNotEmpty, fnNormalizeURL]⟩
+              · exact ⟨[sc0.sanitizerName], fnNormalizeURL, by simp [hs, appendIfNotEmpty, fnNormalizeURL]⟩
             · split at h
               · split at h
                 · simp only [Option.some.injEq] at h; subst h
